@@ -19,6 +19,7 @@ from aioesphomeapi.core import MESSAGE_TYPE_TO_PROTO
 
 from common import Check, run_driver_parallel
 import fh
+import common
 import simnet
 
 PING_REQ = 7
@@ -36,12 +37,34 @@ class OffGrid(Exception):
     pass
 
 
-def run_scenario(K: float, sched: dict[int, str], n_grid: int, gdiv: int, mtypes, close_at=None, chatter=False):
+def run_scenario(K: float, sched: dict[int, str], n_grid: int, gdiv: int, mtypes, close_at=None, chatter=False, hello_delay=0.0):
     """sched: grid index -> 'b' (message before the timers of that instant), 'a' (after), 'ba' (both).
     grid step = K/gdiv.  After n_grid steps the peer is silent; we run on until 7.5K past the end.
     Returns (ops, real_obs, log_entries, info)."""
-    net, client, conn, stops = simnet.established(keepalive=K)
+    if hello_delay:
+        # a device that takes its time to answer the hello: the keepalive clock starts when the session is ESTABLISHED
+        from aioesphomeapi.client import APIClient
+        net = simnet.Net()
+        loop = net.loop
+        net.auto_resolve = net.auto_sock = True
+        client = APIClient("10.0.0.1", 6053, None, keepalive=K)
+        stops = []
+
+        async def on_stop(expected):
+            stops.append((loop.time(), expected))
+
+        o = simnet.spawn(loop, client.connect(on_stop=on_stop, login=False), "connect")
+        loop.run_idle()
+        loop.advance(hello_delay)
+        net.send(simnet.hello_response())
+        loop.run_idle()
+        if o.cls() != "ok":
+            raise common.LibraryMisbehaved("session-not-established", f"connect() with a hello answered after {hello_delay} s ended as {o.cls()}")
+        conn = client._connection
+    else:
+        net, client, conn, stops = simnet.established(keepalive=K)
     loop = net.loop
+    t_ref = loop.time()      # the instant of establishment: every instant below is relative to it
     tick_s = K / U  # seconds per model tick
     step_ticks = U // gdiv
     ops, obs, log = [f"ka.reset {U // 2}"], ["ok"], []
@@ -58,9 +81,9 @@ def run_scenario(K: float, sched: dict[int, str], n_grid: int, gdiv: int, mtypes
     def observe(enabled=1):
         alive = conn.connection_state is not simnet.ac.CONNECTION_STATE_CLOSED
         pings = sum(1 for (_, ty, _) in net.written() if ty == PING_REQ)
-        timers = sorted(to_ticks(w) for w, _ in loop.armed_timers()) if alive else []
+        timers = sorted(to_ticks(w - t_ref) for w, _ in loop.armed_timers()) if alive else []
         ping_failed = fh.err_class(conn._fatal_exception) == "pingFailed"
-        dead = [to_ticks(t) for t, _ in stops] if ping_failed else []
+        dead = [to_ticks(t - t_ref) for t, _ in stops] if ping_failed else []
         return (f"alive={1 if alive else 0} pings={pings} timers=[{' '.join(map(str, timers))}] "
                 f"dead=[{' '.join(map(str, dead))}] enabled={enabled}")
 
@@ -76,7 +99,7 @@ def run_scenario(K: float, sched: dict[int, str], n_grid: int, gdiv: int, mtypes
         r = net.send(m)
         loop_ready_before = len(loop._ready)
         if r == "ok" and alive:
-            log.append(f"m:{to_ticks(loop.time())}")
+            log.append(f"m:{to_ticks(loop.time() - t_ref)}")
             do("ka.msg")
         # replies to PingRequest/GetTimeRequest are written synchronously; nothing is scheduled
         return r
@@ -90,7 +113,7 @@ def run_scenario(K: float, sched: dict[int, str], n_grid: int, gdiv: int, mtypes
             lab = loop.step_one()
             if lab is None:
                 break
-            now = to_ticks(loop.time())
+            now = to_ticks(loop.time() - t_ref)
             if lab.endswith("_async_send_keep_alive"):
                 after = sum(1 for (_, ty, _) in net.written() if ty == PING_REQ)
                 log.append(f"t:{now}:{1 if after > before else 0}")
@@ -110,14 +133,14 @@ def run_scenario(K: float, sched: dict[int, str], n_grid: int, gdiv: int, mtypes
         T = i * (K / gdiv)
         # urgency on the real side: never jump over an armed timer (all deadlines are on the grid by construction)
         nt = loop.next_timer()
-        if nt is not None and nt < T - 1e-9 * max(1.0, K):
+        if nt is not None and nt - t_ref < T - 1e-9 * max(1.0, K):
             # a deadline off the grid: visit it first
             loop._vt = nt
-            ops.append(f"ka.adv {to_ticks(nt) - to_ticks(loop.time())}")
+            ops.append(f"ka.adv {to_ticks(nt - t_ref) - to_ticks(loop.time() - t_ref)}")
             obs.append(observe())
             timers_now()
-        d = to_ticks(T) - to_ticks(loop.time())
-        loop._vt = T
+        d = to_ticks(T) - to_ticks(loop.time() - t_ref)
+        loop._vt = t_ref + T
         do(f"ka.adv {d}")
         what = sched.get(i, "") if i <= n_grid else ""
         if chatter and conn.is_connected:
@@ -187,7 +210,9 @@ def run(ck: Check):
     for si, (K, sched, n, gdiv, close_at) in enumerate(scen):
         mt = SERVER_TYPES[si % len(SERVER_TYPES):] + SERVER_TYPES[: si % len(SERVER_TYPES)]
         try:
-            ops, obs, log, info = run_scenario(K, sched, n, gdiv, mt, close_at, chatter=(si % 3 == 1))
+            # every fifth scenario: the device answers the hello late (by up to three grid steps, capped below the hello timeout)
+            hd = [0.0, 0.0, 0.0, 0.0, min(K / gdiv, 7.3), 0.0, 0.0, 0.0, 0.0, min(3 * K / gdiv, 19.7)][si % 10]   # < the 30 s hello timeout
+            ops, obs, log, info = run_scenario(K, sched, n, gdiv, mt, close_at, chatter=(si % 3 == 1), hello_delay=hd)
         except OffGrid as e:
             ck.violation("c10:deadline-off-grid", f"keepalive {K} s, messages at grid steps {sorted(sched)} (step K/{gdiv}): a keepalive / pong "
                          f"timer or the detection instant lies at t={e.args[0]:.6f} s, which is not a multiple of K/{U} = {e.args[1]} s - the ping "
